@@ -31,7 +31,7 @@ ASSUMPTIONS = [
     "oracle: the original model evaluated directly; extra components in the re-read model (compartment, *_amount helpers) are allowed",
     "outcomes: export raised (acceptable) / equal / different (violation) / read failed on a written file (violation)",
 ]
-N = {"quick": 320, "thorough": 5000}
+N = {"quick": 320, "thorough": 40000}
 MIN_NONTRIVIAL = {"quick": 30, "thorough": 600}
 CASE_TIMEOUT = 300
 
